@@ -85,6 +85,38 @@ fn main() {
     }
     sut::install_panic_hook();
 
+    if what == "debug-floor" {
+        let mut rng = util::Rng::new(seed);
+        for slot in [31u32, 33, 41] {
+            let prog = gen::prog::floor_program(&mut rng, slot);
+            let (payload, table, hist) = refmodel::lzma::encode_program(&prog, refmodel::lzma::Props::new(0, 0, 0)).unwrap();
+            let mut prev = 5u64;
+            let mut best = (0u64, 0usize);
+            for (i, r) in table.iter().enumerate() {
+                if r.consumed - prev > best.0 {
+                    best = (r.consumed - prev, i);
+                }
+                prev = r.consumed;
+            }
+            println!("slot {}: {} symbols, payload {} bytes, output {} bytes, most expensive symbol #{} = {} costs {} bytes",
+                slot, prog.len(), payload.len(), hist.len(), best.1, prog[best.1].short(), best.0);
+        }
+        // drive the stream decoder with a cut one byte into the expensive symbol
+        let prog = gen::prog::floor_program(&mut rng, 31);
+        let (payload, table, hist) = refmodel::lzma::encode_program(&prog, refmodel::lzma::Props::new(0, 0, 0)).unwrap();
+        let mut file = sut::lzma_header(0, 1 << 20, Some(Some(hist.len() as u64)));
+        let hdr = file.len();
+        file.extend_from_slice(&payload);
+        let i = prog.len() - 4;
+        let b = hdr + table[i - 1].consumed as usize;
+        for cut in [b - 1, b, b + 1, b + 2, b + 5] {
+            let sink = gen::io::SharedSink::new();
+            let obs = sut::new_obs(u64::MAX);
+            let run = mon::streamdrv::drive(&file, &sut::default_options(), &[cut], &Default::default(), &sink, &obs);
+            println!("cut {} (boundary {}): {} out {} snaps {:?}", cut, b, run.verdict.short(), run.out.len(), run.snaps);
+        }
+        std::process::exit(0);
+    }
     if what == "selfcheck" {
         match selfcheck::run(seed, tier.pick(12, 120)) {
             Ok(m) => {
